@@ -949,10 +949,8 @@ pub fn apply_model(
             let immutable = matches!(op, Op::EvalImm { .. });
             // the meaning of a program is its own structure: if the parser rejects the source
             // text of a renderable program (or groups it differently), the real side shows it
-            let tree = match build_tree(program, *form) {
-                Ok((t, _)) => t,
-                Err(_) => program.assemble(true),
-            };
+            // (for source text too: what the text means is not taken from the parser under test)
+            let tree = if form.is_parsed() { program.assemble(true) } else { build_tree(program, *form).map(|x| x.0).unwrap_or_else(|_| program.assemble(true)) };
             let mut env = RefEnv {
                 vars: m.vars.clone(),
                 fns: m.fns.clone(),
@@ -1410,6 +1408,11 @@ fn gen_program(
         // assignments below a non-statement operator: `(x = e1, y = e2)`
         let a = g.program();
         let b = g.program();
+        if g.rng.percent(50) {
+            // ... after a statement: `s; x += e1, y = e2` (a tuple written directly after a `;`)
+            let s = g.program();
+            return Expr::Chain(vec![s, Expr::Tuple(vec![a, b])]);
+        }
         return Expr::Tuple(vec![a, b]);
     }
     g.program()
@@ -1461,6 +1464,7 @@ pub fn gen_history(work: &mut Rng, sched: &mut Rng, conf: &mut Rng, d: &mut Dele
                 let program = gen_program(work, model, &cfg, statement);
                 let renderable = program.is_renderable();
                 let form = match work.below(3) {
+                    0 if renderable && work.percent(40) => Form::ParsedLoose,
                     0 if renderable => Form::Parsed,
                     1 => Form::Assembled { wrap: false },
                     _ => Form::Assembled { wrap: true },
